@@ -28,7 +28,11 @@ def run(run):
     for oid, ok, detail in obs:
         run.count(oid, ok, 'static analysis of the AST of /repo (pyvc.inventory)', 0.0, 'property', 'unsat' if ok else 'sat',
                   sample={'obligation': oid, 'verdict': 'discharged' if ok else 'refuted', 'detail': detail[:160]})
-        if not ok and 'called_only_when_a_model_is_created' in oid:
+        if not ok and ('/is_reset' in oid or '/reset_to_initial' in oid or '/mutable_is_reset' in oid) and _dynamically_reset(oid):
+            # the syntactic inventory did not SEE the reset (e.g. it is written as a loop with setattr), but running the real PEP() on dirtied state shows the
+            # location back at its class-body value: the finding is an analysis limit, not a violation
+            run.undecide(oid, detail + ' [syntactic inventory only: executing PEP() on dirtied state does reset this location]')
+        elif not ok and 'called_only_when_a_model_is_created' in oid:
             # another caller is not by itself a violation (an explicit user-invoked reset would be legitimate): the histories below decide
             run.undecide(oid, detail)
         elif not ok:
@@ -50,3 +54,46 @@ def run(run):
 
 def replay(rec, path):
     return hc.replay_scenario(rec, 'C12', path)
+
+
+_DYN = {}
+
+
+def _dynamically_reset(oid):
+    """dirty every class-level location (build and solve a model with a partition, an LMI, a composite function), create a new PEP(), and read the
+    location named in the obligation id: True iff it is back at the value the class body gives it"""
+    import ast, importlib, os
+    if 'state' not in _DYN:
+        try:
+            from harness import models
+            from harness.solve import solve
+            for name, seed in (('T_blocks', 3), ('T_user_lmi', 2), ('T_composite', 1)):
+                pep, _ = models.build(name, seed)
+                solve(pep)
+                if name == 'T_user_lmi':
+                    solve(pep, dimension_reduction_heuristic='logdet1')
+            from PEPit import PEP
+            try:
+                PEP._reset_classes()                      # (the reset alone: PEP.__init__ goes on to count the new problem)
+            except TypeError:
+                PEP.__new__(PEP)._reset_classes()
+            _DYN['state'] = 'ok'
+        except Exception as e:       # noqa
+            _DYN['state'] = 'error: %s' % e
+    if _DYN['state'] != 'ok':
+        return False
+    loc = oid.split('/')[2]
+    cname, attr = loc.split('.', 1)
+    from pyvc import inventory
+    a = inventory.analyse()
+    rp = a['classes'].get(cname)
+    init = a['class_level'].get((cname, attr))
+    if rp is None or init is None:
+        return False
+    mod = importlib.import_module(rp[:-3].replace('/', '.'))
+    cur = getattr(getattr(mod, cname), attr, None)
+    try:
+        want = ast.literal_eval(init) if init not in ('list()', 'dict()', 'set()') else {'list()': [], 'dict()': {}, 'set()': set()}[init]
+    except Exception:       # noqa
+        return False
+    return cur == want
